@@ -10,6 +10,18 @@ E3 = 'TLC model checking of a TLA+ model generated from the documented tables, w
 
 # pid -> (engine, technique, level text, note, design_ref)
 CHECKS = {
+    'C04': ('E1+E2', E1 + '; ' + E2 + ' (orderings of tilt elements, fit/update histories)',
+            'Five tilt representations (OPD ramp, Tilt plane after/before the pupil, Wavefront(tilt=), fit_tilt) over pupils, '
+            'monolithic and two-segment apertures incl. per-segment tilts, square and per-axis input/output pixel scales, oversample '
+            '1..3, output shapes, prop windows, masks and 10 displacements (zero, sub-pixel, 1.6, 4, beyond the output, both signs, '
+            'mixed): the propagated field must equal the reference Fraunhofer sum of the OPD-ramp field on every evaluated sample and '
+            'the evaluated window must be the prop window displaced by an integer vector within one sample of z*angle*os/du (row +x, '
+            'col -y). fit_tilt against an independent least squares per segment (piston kept, recorded angles, OPD+tilt unchanged). '
+            'Every permutation of every subset of 5 tilt elements (angular, dispersive 1st/2nd order): displacements add, lie on the '
+            'trace at the dispersed arc length, and propagate like the equivalent angular tilt. Every history (<= 3/4) of '
+            '{fit, fit in place, add tilt, add bump, overwrite} propagates like one plane with the total OPD.',
+            'Trusted: numpy/scipy; reference sum; numeric dispersive roots to 1e-6 relative.',
+            'DESIGN.md section 4 C04'),
     'C07': ('E2', E2,
             'Breadth-first search over chains (depth 4/5) of 14 plane kinds (default, pupils with different focal lengths, segmented '
             'with overlapping bounding boxes, scalar amplitude with a mask, OPD-only, smaller array, tilt, image, inconsistent pixel '
